@@ -192,7 +192,22 @@ def loader_tolerance(ctx) -> None:
     ctx.check(len(acts) == 1 and core.src(acts[0].value) == 'builder()' and any(isinstance(x, ast.For) for x in core.ancestors(acts[0])), 'C04.loader', bd, 'pyfunc instantiates a fresh actor for every functor instruction (its state is preset per instruction)', acts[0] if acts else bd.node, key='pyfunc:fresh-actor')
 
 
+def instance_identity(ctx) -> None:
+    """Two asset instances are the same only if they are the same *generation*: the serving dealer keeps one executor (with
+    the states loaded) per instance key - an identity that stops at the release answers a request for generation 2 from the
+    executor holding generation 1's states.  ``Instance.__eq__`` / ``__hash__`` go by ``self._generation`` as a whole."""
+    prog = ctx.prog
+    ci = prog.cls('forml.io.asset._access:Instance')
+    eq, hs = prog.func(f'{ci.ref}.__eq__'), prog.func(f'{ci.ref}.__hash__')
+    rh = [r for r in core.walk_local(hs.node) if isinstance(r, ast.Return)]
+    ctx.check(len(rh) == 1 and core.src(rh[0].value) == 'hash(self._generation)', 'C04.instance-identity', hs, 'hash(Instance) = hash of its generation level', rh[0] if rh else hs.node, key='instance:hash')
+    re_ = [r for r in core.walk_local(eq.node) if isinstance(r, ast.Return)]
+    text = core.src(re_[0].value) if len(re_) == 1 else ''
+    ctx.check('other._generation == self._generation' in text or 'self._generation == other._generation' in text, 'C04.instance-identity', eq, f'Instance equality compares the generation levels themselves (`{text[:80]}`)', re_[0] if re_ else eq.node, key='instance:eq')
+
+
 def run(ctx) -> None:
+    instance_identity(ctx)
     # the order in which a walk meets sibling branches is what positions are derived from (persistent states, copied wiring)
     shared.r_lifo(ctx, ctx.prog.functions([m for m in ctx.prog.modules if m.startswith(('forml.flow._graph', 'forml.flow._suite', 'forml.flow._code'))]))
     from . import C08
